@@ -303,6 +303,21 @@ def _worker(a):
         a["merges"] = [rng.choice([[y, y, y, y, x, x, "R0", y, x, y, x, x, x, x, x, x],
                                    [y, x, x, y, y, y, "R0", y, y, x, x, x, x, x, x, x],
                                    [x, x, y, y, y, y, "R0", y, x, x, x, x, x, x, y, x]])]
+    if a.get("directed") == "leaver-then-newcomer":
+        # A is asked, answered (challenged, approved, told to retry) and leaves; only then B arrives - whatever memory A's records
+        # occupied is B's now.  B retries its password, completes and is accepted by its timeout without an answer of its own.
+        y, x = ids[0], ids[1]
+        ids = [y, x]
+        sv0 = cfg.services[0][0]
+        scripts = {
+            y: [{"a": "announce", "ip": "192.0.2.1", "port": 1024}, {"a": "host", "name": "ha.example"}, {"a": "ident", "name": "ida"}, {"a": "password", "text": "+x alice pw"},
+                {"a": "reply", "svc": sv0, "text": ["MORE prove it", "OK alice", "OK", "AGAIN retry"][a.get("variant", 0) % 4]}, {"a": rng.choice(["disconnect", "registered"])}],
+            x: [{"a": "announce", "ip": "192.0.2.2", "port": 1025}, {"a": "host", "name": "h.example"}, {"a": "ident", "name": "id"},
+                {"a": "password", "text": "+x bob pw"}, {"a": "reply", "svc": sv0, "text": "AGAIN wrong password"},
+                {"a": "password", "text": "+x bob pw2"}, {"a": "nick", "name": "nn"},
+                {"a": "userinfo", "user": "u", "real": "r"}, {"a": "hurry"}, {"a": "timeout"}, {"a": "registered"}],
+        }
+        a["merges"] = [[y] * len(scripts[y]) + [x] * len(scripts[x])]
     if a.get("directed") == "validated-then-stale":
         # X's first holder gets a non-final answer, the id comes back and asks again, and the late answer to the FIRST holder follows
         # with nothing else from that service in between when X is alone; interleaved, other clients' answers come in between
@@ -434,7 +449,7 @@ def _worker(a):
             res["stats"]["batch_replays"] = res["stats"].get("batch_replays", 0) + 1
             if why:
                 res["viol"].append(("C07", "one-piece-delivery", "one-piece-delivery", "%s\ninterleaving: %s\ninput:\n%s" % (why, order, "\n".join(sent_lines[:80])),
-                                    {"config": cfgj, "seed": seed, "order": order, "nclients": nclients, "length": length, "directed": a.get("directed"), "early_comeback": a.get("early_comeback"), "reload": a.get("reload")}))
+                                    {"config": cfgj, "seed": seed, "order": order, "nclients": nclients, "length": length, "directed": a.get("directed"), "early_comeback": a.get("early_comeback"), "reload": a.get("reload"), "variant": a.get("variant", 0)}))
                 break
         for cid in ids:
             res["stats"]["client_conversations_compared"] += 1
@@ -443,7 +458,7 @@ def _worker(a):
                 text = ("client %d's conversation differs between running alone and interleaved with clients %s\n%s\nscript of client %d: %s\ninterleaving: %s" % (
                     cid, [c for c in ids if c != cid], diff, cid, [short(x) for x in scripts[cid]], order))
                 res["viol"].append(("C07", "conversation", "conversation:" + diff_class(refs_now[cid], conv[cid]), text,
-                                    {"config": cfgj, "seed": seed, "order": order, "nclients": nclients, "length": length, "directed": a.get("directed"), "early_comeback": a.get("early_comeback"), "reload": a.get("reload")}))
+                                    {"config": cfgj, "seed": seed, "order": order, "nclients": nclients, "length": length, "directed": a.get("directed"), "early_comeback": a.get("early_comeback"), "reload": a.get("reload"), "variant": a.get("variant", 0)}))
                 break
         if res["viol"]:
             break
@@ -531,6 +546,8 @@ def run(chk, tier, scale=1.0):
                                                for k in range(int((12 if tier == "quick" else 96) * max(scale, 0.34)))])
     nsets = int((48 if tier == "quick" else 500) * scale)
     jobs = []
+    import build as buildmod
+    bplain = buildmod.build_daemon(buildmod.fresh_dir("c07p-" + tier), "plain")
     for i in range(nsets):
         rng = random.Random("c07/%d/%d" % (chk.seed, i))
         cfg = pcommon.random_config(rng, want_class=(rng.random() < 0.3))
@@ -555,6 +572,12 @@ def run(chk, tier, scale=1.0):
         rng = random.Random("c07r/%d/%d" % (chk.seed, i))
         cfg = proto.Config([("chal.svc", rng.choice(["login", "login-ipr", "combined"])), ("keep.svc", "dronecheck")], timeout=3600)
         jobs.append(dict(build=b, config=cfg.to_json(), seed=rng.randrange(1 << 30), nclients=2, length=9, nmerges=1, directed="retry-barrier"))
+    for i in range(8 if tier == "quick" else 80):
+        rng = random.Random("c07n/%d/%d" % (chk.seed, i))
+        cfg = proto.Config([("login.svc", rng.choice(["login", "login-ipr"]))], timeout=3600,
+                           rules=[{"name": "a1", "xreply_ok": "login.svc", "class": "vouched"}, {"name": "z9", "class": "plain"}], use_class=True)
+        # on the unsanitized build: there the allocator hands the leaver's block straight to the newcomer (ASan would quarantine it)
+        jobs.append(dict(build=bplain, config=cfg.to_json(), seed=rng.randrange(1 << 30), nclients=2, length=12, nmerges=1, directed="leaver-then-newcomer", variant=i))
     for i in range(4 if tier == "quick" else 40):
         rng = random.Random("c07v/%d/%d" % (chk.seed, i))
         cfg = proto.Config([("login.svc", rng.choice(["login", "login-ipr", "combined"]))], timeout=3600)
@@ -587,7 +610,7 @@ def run(chk, tier, scale=1.0):
                 "symbolically to 'what I await from service s'; each script is run alone (reference conversation) and in random / round-robin / bursty order-preserving "
                 "interleavings; the projection of the daemon's output on each client (its id, X lines carrying its id; serial renumbered) grouped by the client's own events "
                 "must equal the reference, and no line about a client may appear in another client's step; every second interleaving is also written to a fresh daemon in ONE piece "
-                "(no sync lines) and must give the same stdout; guarded table audit every 50 steps; directed sets: a leaver / a client that retries after AGAIN next to a client waiting on a service that a reload removes; a holder answered AGAIN / MORE whose id comes back and receives the late answer to the first holder; real-timer runs (2 s timeout, no hook-driven expiry): four soft-held clients announced 0.1-0.2 s apart after one or three silent ones must each not be accepted before ITS OWN 2 s are over (one-sided wall clock); a third of the sets has 1-2 SIGUSR1 reloads switching the service table at a fixed "
+                "(no sync lines) and must give the same stdout; guarded table audit every 50 steps; directed sets: a client that arrives after another was answered and left (it gets the leaver's memory); a leaver / a client that retries after AGAIN next to a client waiting on a service that a reload removes; a holder answered AGAIN / MORE whose id comes back and receives the late answer to the first holder; real-timer runs (2 s timeout, no hook-driven expiry): four soft-held clients announced 0.1-0.2 s apart after one or three silent ones must each not be accepted before ITS OWN 2 s are over (one-sided wall clock); a third of the sets has 1-2 SIGUSR1 reloads switching the service table at a fixed "
                 "place of every client's script (solo reference with the reloads at the same places); scripts may re-use their id while a query of the previous holder is unanswered "
                 "and then receive the late answer to the previous holder; sets of 18-30 clients drive the serials into two hex digits; "
                 "a case = one interleaving of one script set (distinct by hash); non-trivial = conversations were compared")
@@ -618,7 +641,10 @@ def replay(chk, rep):
             print(v[3])
         return 1 if r["viol"] else 0
     a = dict(build=b, config=w["config"], seed=w["seed"], nclients=w.get("nclients", 3), length=w.get("length", 12), nmerges=1, merges=[w["order"]],
-             directed=w.get("directed"), early_comeback=w.get("early_comeback"), reload=w.get("reload"))
+             directed=w.get("directed"), early_comeback=w.get("early_comeback"), reload=w.get("reload"), variant=w.get("variant", 0))
+    if w.get("directed") == "leaver-then-newcomer":
+        import build as buildmod
+        a["build"] = buildmod.build_daemon(buildmod.fresh_dir("c07p-replay"), "plain")
     r = _worker(a)
     for v in r["viol"]:
         print(v[3])
